@@ -46,7 +46,7 @@ let register () =
         (match NetRtspCmd.run_cmd Drv_c13.fx NetRtspCmd.uri_ok_k ob (ws = "1") (bytes_of_token b) with
          | Res.Ok (st, evs) ->
            Printf.sprintf "ok %s %s leak:%d" (if evs = [] then "-" else String.concat ";" (Stdlib.List.map show_cev evs)) (show_state st)
-             (int_of_n st.NetRtspCmd.cs_leak)
+             (2 * int_of_n st.NetRtspCmd.cs_leak)
          | Res.Err _ -> "err-fuel"
          | Res.Panic s -> panic s)
       | _ -> "bad-args")
